@@ -568,6 +568,7 @@ def build(prog, res=None):
                 st.exc_kind = "kbint" if isinstance(ex, KeyboardInterrupt) else "raise"
                 raise
             st.last_ret = r
+            run.ev("recur_end", s._nid)
             return r
 
         def clean(s):
